@@ -1,7 +1,8 @@
 import GoldModel.Model.Grammar
 /-!
-Abstract syntax of binary-operator expressions, their printing to tokens and their intended
-tree — the specification side of the expression round trip (`Props/C06Expr.lean`).  Executable, so
+Abstract syntax of the expressions of `parse_expr` (atoms, parentheses, the eight binary levels,
+prefix / postfix operators, member-access chains with calls and indexing, set literals), their
+printing to tokens and their intended tree — the specification side of the expression round trip (`Props/C06Expr.lean`).  Executable, so
 the driver (`exspec` mode) can evaluate it on the implementation's own tokens.
 -/
 namespace Gold.C06
@@ -51,26 +52,92 @@ def bad (L : Nat) : List Kind := Kind.Comment :: (atomCont ++ opsUpTo L)
 def Stop (L : Nat) (k : List Tok) : Prop := ∀ t r, k = t :: r → t.kind ∉ bad L
 
 
+def dotKinds : List Kind := Gen.opsOf "parse_dot_ops"
+def postKinds : List Kind := [Kind.Increment, Kind.Decrement]
+
+/-- what must not follow a member-access chain: it would extend its last element or the chain -/
+def badD : List Kind := Kind.Comment :: Kind.OBracket :: Kind.OSqrBracket :: dotKinds
+def StopD (k : List Tok) : Prop := ∀ t r, k = t :: r → t.kind ∉ badD
+
+/-- what must not follow an element of a chain: it would turn an identifier into a call / an index -/
+def badE : List Kind := [Kind.Comment, Kind.OBracket, Kind.OSqrBracket]
+def StopE (k : List Tok) : Prop := ∀ t r, k = t :: r → t.kind ∉ badE
+
+mutual
+/-- abstract syntax of `parse_expr` -/
 inductive Ex where
+  /-- identifier (or keyword accepted as one) or basic literal -/
   | atom (t : Tok)
   | paren (lp : Tok) (e : Ex) (rp : Tok)
+  /-- one of the 23 operators of the eight binary levels -/
   | bin (l : Ex) (op : Tok) (r : Ex)
+  /-- `not bNot @ inherited -` applied to a primary -/
+  | pre (op : Tok) (e : Ex)
+  /-- `++` / `--` after a member-access chain -/
+  | post (e : Ex) (op : Tok)
+  /-- member access `l . r`: `l` a chain, `r` an element (identifier, call, index) -/
+  | dot (l : Ex) (d : Tok) (r : Ex)
+  /-- `f ( args )` -/
+  | call (f : Tok) (lp : Tok) (as : Args) (rp : Tok)
+  /-- `a [ e ]` -/
+  | index (a : Tok) (lb : Tok) (e : Ex) (rb : Tok)
+  /-- set literal `[ items ]` -/
+  | set (lb : Tok) (as : Args) (rb : Tok)
+/-- comma-separated lists, carrying the comma tokens: empty, `e`, or `e , rest` (rest non-empty) -/
+inductive Args where
+  | nil
+  | one (e : Ex)
+  | more (e : Ex) (c : Tok) (rest : Args)
+end
 
-namespace Ex
+def Args.nonEmpty : Args → Bool
+  | .nil => false
+  | _ => true
 
+/-! the nodes the semantic actions of `gUnaryPre`, `gUnaryPost`, `gMethodCallBody`, `gArrayAccess`,
+    `gLiteralSet` build, as functions of the concrete-syntax values -/
+
+def unaryPreNode (op e : Tree) : Tree := mk "unary_op" op.ident (Range.span op.rng e.rng) [e] ["op=" ++ op.kind]
+def unaryPostNode (e op : Tree) : Tree := mk "unary_op" op.ident (Range.span e.rng op.rng) [e] ["op=" ++ op.kind]
+def callNode (id rp : Tree) (args : List Tree) : Tree := mk "method_call" id.ident (Range.span id.rng rp.rng) args
+def indexNode (id e rb : Tree) : Tree := mk "array_access" id.ident (Range.span id.rng rb.rng) [id, e]
+def setNode (lb rb : Tree) (items : List Tree) : Tree := mk "set_literal" "set_literal" (Range.span lb.rng rb.rng) items
+
+mutual
 /-- printing: the tokens in source order (whatever their positions and spellings) -/
-def toks : Ex → List Tok
-  | atom t => [t]
-  | paren lp e rp => lp :: (e.toks ++ [rp])
-  | bin l op r => l.toks ++ op :: r.toks
+def Ex.toks : Ex → List Tok
+  | .atom t => [t]
+  | .paren lp e rp => lp :: (e.toks ++ [rp])
+  | .bin l op r => l.toks ++ op :: r.toks
+  | .pre op e => op :: e.toks
+  | .post e op => e.toks ++ [op]
+  | .dot l d r => l.toks ++ d :: r.toks
+  | .call f lp as rp => f :: lp :: (as.toks ++ [rp])
+  | .index a lb e rb => a :: lb :: (e.toks ++ [rb])
+  | .set lb as rb => lb :: (as.toks ++ [rb])
+def Args.toks : Args → List Tok
+  | .nil => []
+  | .one e => e.toks
+  | .more e c rest => e.toks ++ c :: rest.toks
+end
 
+mutual
 /-- the intended tree -/
-def tree : Ex → Tree
-  | atom t => terminal (.leaf t)
-  | paren _ e _ => e.tree
-  | bin l op r => binNode l.tree (.leaf op) r.tree
-
-end Ex
+def Ex.tree : Ex → Tree
+  | .atom t => terminal (.leaf t)
+  | .paren _ e _ => e.tree
+  | .bin l op r => binNode l.tree (.leaf op) r.tree
+  | .pre op e => unaryPreNode (.leaf op) e.tree
+  | .post e op => unaryPostNode e.tree (.leaf op)
+  | .dot l d r => binNode l.tree (.leaf d) r.tree
+  | .call f _ as rp => callNode (terminal (.leaf f)) (.leaf rp) as.trees
+  | .index a _ e rb => indexNode (terminal (.leaf a)) e.tree (.leaf rb)
+  | .set lb as rb => setNode (.leaf lb) (.leaf rb) as.trees
+def Args.trees : Args → List Tree
+  | .nil => []
+  | .one e => [e.tree]
+  | .more e _ rest => e.tree :: rest.trees
+end
 
 /-- the level at which an operator kind binds (0 = not a binary operator) -/
 def opLevel (k : Kind) : Nat :=
@@ -80,23 +147,61 @@ def opLevel (k : Kind) : Nat :=
 
 def atomOK (t : Tok) : Prop := t.kind ∈ identKinds ∨ t.kind ∈ literalKinds
 
-/-- `e` is printed without redundant need of parentheses at level `L`: every binary node sits at a
-    level ≤ the level allowed by its context — the left operand may be of the same level
-    (left association), the right operand must be tighter -/
+/-- an element of a member-access chain: identifier, call, index -/
+def Ex.isElem : Ex → Bool
+  | .atom t => identKinds.contains t.kind
+  | .call .. => true
+  | .index .. => true
+  | _ => false
+
+/-- a member-access chain `d1 . d2 . … . dn` (n ≥ 1), nested to the left -/
+def Ex.isChain : Ex → Bool
+  | .dot l _ r => l.isChain && r.isElem
+  | e => e.isElem
+
+mutual
+/-- `e` is printed with the parentheses its shape needs at level `L`: every binary node sits at a
+    level ≤ the level allowed by its context — the left operand may be of the same level (left
+    association), the right operand must be tighter; the operand of a prefix operator is a primary;
+    `++`/`--` follow a chain; a chain is built from elements; arguments are full expressions and
+    the items of a set literal primaries -/
 def Ex.WF : Nat → Ex → Prop
   | _, .atom t => atomOK t
   | _, .paren lp e rp => lp.kind = Kind.OBracket ∧ rp.kind = Kind.CBracket ∧ e.WF 8
   | L, .bin l op r => 1 ≤ opLevel op.kind ∧ opLevel op.kind ≤ L ∧ l.WF (opLevel op.kind) ∧ r.WF (opLevel op.kind - 1)
+  | _, .pre op e => op.kind ∈ unaryPre ∧ e.WF 0
+  | _, .post e op => op.kind ∈ postKinds ∧ e.isChain = true ∧ e.WF 0
+  | _, .dot l d r => d.kind ∈ dotKinds ∧ l.isChain = true ∧ r.isElem = true ∧ l.WF 0 ∧ r.WF 0
+  | _, .call f lp as rp => f.kind ∈ identKinds ∧ lp.kind = Kind.OBracket ∧ rp.kind = Kind.CBracket ∧ as.WF 8
+  | _, .index a lb e rb => a.kind ∈ identKinds ∧ lb.kind = Kind.OSqrBracket ∧ rb.kind = Kind.CSqrBracket ∧ e.WF 8
+  | _, .set lb as rb => lb.kind = Kind.OSqrBracket ∧ rb.kind = Kind.CSqrBracket ∧ as.WF 0
+def Args.WF : Nat → Args → Prop
+  | _, .nil => True
+  | L, .one e => e.WF L
+  | L, .more e c rest => e.WF L ∧ c.kind = Kind.Comma ∧ rest.nonEmpty = true ∧ rest.WF L
+end
 
 
 /-! ## executable versions (for the driver), proved equivalent in `Lemmas/ExprRoundTrip.lean` -/
 
 def atomOKb (t : Tok) : Bool := identKinds.contains t.kind || literalKinds.contains t.kind
 
+mutual
 def Ex.wfb : Nat → Ex → Bool
   | _, .atom t => atomOKb t
   | _, .paren lp e rp => lp.kind == Kind.OBracket && rp.kind == Kind.CBracket && e.wfb 8
   | L, .bin l op r => decide (1 ≤ opLevel op.kind) && decide (opLevel op.kind ≤ L) && l.wfb (opLevel op.kind) && r.wfb (opLevel op.kind - 1)
+  | _, .pre op e => unaryPre.contains op.kind && e.wfb 0
+  | _, .post e op => postKinds.contains op.kind && e.isChain && e.wfb 0
+  | _, .dot l d r => dotKinds.contains d.kind && l.isChain && r.isElem && l.wfb 0 && r.wfb 0
+  | _, .call f lp as rp => identKinds.contains f.kind && lp.kind == Kind.OBracket && rp.kind == Kind.CBracket && as.wfb 8
+  | _, .index a lb e rb => identKinds.contains a.kind && lb.kind == Kind.OSqrBracket && rb.kind == Kind.CSqrBracket && e.wfb 8
+  | _, .set lb as rb => lb.kind == Kind.OSqrBracket && rb.kind == Kind.CSqrBracket && as.wfb 0
+def Args.wfb : Nat → Args → Bool
+  | _, .nil => true
+  | L, .one e => e.wfb L
+  | L, .more e c rest => e.wfb L && c.kind == Kind.Comma && rest.nonEmpty && rest.wfb L
+end
 
 def stopB (L : Nat) : List Tok → Bool
   | [] => true
